@@ -31,7 +31,10 @@ type c18Case struct {
 	Out     []int  // Write sizes
 	Ending  string // close-1000 | close-1001 | close-other | transport-eof | transport-reset | wrong-type
 	WrongAt int
-	Code    int
+	// WrongPartial: of the message of the wrong type only the first fragment arrives (a peer streaming it); its
+	// type is known from that frame, and the rest never comes
+	WrongPartial bool
+	Code         int
 	// Hangup: the peer closes the transport right behind its Close frame instead of
 	// waiting for the echo (only drawn when this side writes nothing itself).
 	Hangup bool
@@ -68,6 +71,7 @@ func genC18(rt *rapid.T) c18Case {
 	c.Ending = rapid.SampledFrom([]string{"close-1000", "close-1001", "close-other", "transport-eof", "transport-reset", "wrong-type"}).Draw(rt, "ending")
 	c.Code = rapid.SampledFrom([]int{1002, 1008, 1011, 3000, 4999, -1}).Draw(rt, "otherCode")
 	c.WrongAt = rapid.IntRange(0, len(c.In)).Draw(rt, "wrongAt")
+	c.WrongPartial = c.Ending == "wrong-type" && rapid.IntRange(0, 2).Draw(rt, "wrongTypeFirstFragmentOnly") == 0
 	c.MaxRead = rapid.SampledFrom([]int{0, 0, 0, 1, 2, 7}).Draw(rt, "maxRead")
 	c.Pings = rapid.Bool().Draw(rt, "peerPings")
 	if !c.Mode.Client && len(c.In) > 0 && !(c.Ending == "wrong-type" && c.WrongAt == 0) && rapid.IntRange(0, 2).Draw(rt, "early") == 0 {
@@ -207,7 +211,12 @@ func runC18Stream(t fataler, c c18Case) (string, c18Result) {
 		case "transport-reset":
 			lc.End.CloseWrite(memconn.ErrReset)
 		case "wrong-type":
-			sendMsg(0, []byte("a message of the other type"), wrongOp)
+			if c.WrongPartial {
+				p.send(ref.Frame{Fin: false, Opcode: wrongOp, Payload: []byte("a message of")})
+				evid.For("C18").Class("wrong-type:first-fragment-only", 1)
+			} else {
+				sendMsg(0, []byte("a message of the other type"), wrongOp)
+			}
 		}
 		if c.Hangup {
 			lc.End.Close() // everything sent stays readable; the echo of the Close frame cannot be written any more
